@@ -35,29 +35,32 @@ func init() {
 		"ObserveStrs": zzObserve,
 		"ObserveInts": zzObserve,
 		"Param":       zzParam,
-		"Setenv":      func(fr *frame, args []value) value { fr.m.notes["env:"+concStr(args[0], "env key")] = args[1]; return nil },
-		"MapOrder":    zzMapOrder,
-		"And":         zzAnd,
-		"Or":          zzOr,
-		"Not":         zzNot,
-		"Implies":     zzImplies,
-		"Bind":        zzBind,
-		"IteInt":      zzIte,
-		"IteStr":      zzIte,
-		"Go":          zzGo,
-		"Yield":       zzYield,
-		"Count":       zzCount,
-		"CountGet":    zzCountGet,
-		"StubCalls":   zzStubCalls,
-		"Ticks":       zzTicks,
-		"AllowMainBlock": zzAllowMainBlock,
-		"BlockForever":   zzBlockForever,
-		"WaitUntil":      zzWaitUntil,
+		"Setenv": func(fr *frame, args []value) value {
+			fr.m.notes["env:"+concStr(args[0], "env key")] = args[1]
+			return nil
+		},
+		"MapOrder":               zzMapOrder,
+		"And":                    zzAnd,
+		"Or":                     zzOr,
+		"Not":                    zzNot,
+		"Implies":                zzImplies,
+		"Bind":                   zzBind,
+		"IteInt":                 zzIte,
+		"IteStr":                 zzIte,
+		"Go":                     zzGo,
+		"Yield":                  zzYield,
+		"Count":                  zzCount,
+		"CountGet":               zzCountGet,
+		"StubCalls":              zzStubCalls,
+		"Ticks":                  zzTicks,
+		"AllowMainBlock":         zzAllowMainBlock,
+		"BlockForever":           zzBlockForever,
+		"WaitUntil":              zzWaitUntil,
 		"LastDoneCheckSawClosed": zzLastDoneSawClosed,
-		"ThreadID":    zzThreadID,
-		"Symbolic":    func(fr *frame, args []value) value { return true },
-		"Concretize":  zzConcretize,
-		"ConcretizeStr": zzConcretizeStr,
+		"ThreadID":               zzThreadID,
+		"Symbolic":               func(fr *frame, args []value) value { return true },
+		"Concretize":             zzConcretize,
+		"ConcretizeStr":          zzConcretizeStr,
 	}
 	for k, v := range base {
 		zzAPI[k] = v
